@@ -804,7 +804,7 @@ func (v Value) toReflectValue(typ reflect.Type) (reflect.Value, error) {
 			case !signed && i == 0 && !reflect.Zero(typ).OverflowUint(u):
 				return reflect.ValueOf(u).Convert(typ), nil
 			}
-			return reflect.Value{}, fmt.Errorf("RangeError: %v to %v", v, kind)
+			return reflect.Value{}, fmt.Errorf("RangeError: %v to %v", describeValue(v), kind)
 		}
 	}
 
@@ -816,25 +816,25 @@ func (v Value) toReflectValue(typ reflect.Type) (reflect.Value, error) {
 		// if a value is outside the range of int64
 		tmp := toIntegerFloat(v)
 		if tmp < floatMinInt || tmp >= floatMaxInt { // floatMaxInt is 2^63 (or 2^31), one past the maximum
-			return reflect.Value{}, fmt.Errorf("RangeError: %f (%v) to int", tmp, v)
+			return reflect.Value{}, fmt.Errorf("RangeError: %f (%v) to int", tmp, describeValue(v))
 		}
 		return reflect.ValueOf(int(tmp)).Convert(typ), nil
 	case reflect.Int8: // Int8
 		tmp := v.number().int64
 		if tmp < int64MinInt8 || tmp > int64MaxInt8 {
-			return reflect.Value{}, fmt.Errorf("RangeError: %d (%v) to int8", tmp, v)
+			return reflect.Value{}, fmt.Errorf("RangeError: %d (%v) to int8", tmp, describeValue(v))
 		}
 		return reflect.ValueOf(int8(tmp)).Convert(typ), nil
 	case reflect.Int16: // Int16
 		tmp := v.number().int64
 		if tmp < int64MinInt16 || tmp > int64MaxInt16 {
-			return reflect.Value{}, fmt.Errorf("RangeError: %d (%v) to int16", tmp, v)
+			return reflect.Value{}, fmt.Errorf("RangeError: %d (%v) to int16", tmp, describeValue(v))
 		}
 		return reflect.ValueOf(int16(tmp)).Convert(typ), nil
 	case reflect.Int32: // Int32
 		tmp := v.number().int64
 		if tmp < int64MinInt32 || tmp > int64MaxInt32 {
-			return reflect.Value{}, fmt.Errorf("RangeError: %d (%v) to int32", tmp, v)
+			return reflect.Value{}, fmt.Errorf("RangeError: %d (%v) to int32", tmp, describeValue(v))
 		}
 		return reflect.ValueOf(int32(tmp)).Convert(typ), nil
 	case reflect.Int64: // Int64
@@ -842,7 +842,7 @@ func (v Value) toReflectValue(typ reflect.Type) (reflect.Value, error) {
 		// if a value is outside the range of int64
 		tmp := toIntegerFloat(v)
 		if tmp < floatMinInt64 || tmp >= floatMaxInt64 { // float64(MaxInt64) is 2^63
-			return reflect.Value{}, fmt.Errorf("RangeError: %f (%v) to int", tmp, v)
+			return reflect.Value{}, fmt.Errorf("RangeError: %f (%v) to int", tmp, describeValue(v))
 		}
 		return reflect.ValueOf(int64(tmp)).Convert(typ), nil
 	case reflect.Uint: // Uint
@@ -850,25 +850,25 @@ func (v Value) toReflectValue(typ reflect.Type) (reflect.Value, error) {
 		// if a value is outside the range of uint
 		tmp := toIntegerFloat(v)
 		if tmp < 0 || tmp >= floatMaxUint { // float64(MaxUint) is 2^64
-			return reflect.Value{}, fmt.Errorf("RangeError: %f (%v) to uint", tmp, v)
+			return reflect.Value{}, fmt.Errorf("RangeError: %f (%v) to uint", tmp, describeValue(v))
 		}
 		return reflect.ValueOf(uint(tmp)).Convert(typ), nil
 	case reflect.Uint8: // Uint8
 		tmp := v.number().int64
 		if tmp < 0 || tmp > int64MaxUint8 {
-			return reflect.Value{}, fmt.Errorf("RangeError: %d (%v) to uint8", tmp, v)
+			return reflect.Value{}, fmt.Errorf("RangeError: %d (%v) to uint8", tmp, describeValue(v))
 		}
 		return reflect.ValueOf(uint8(tmp)).Convert(typ), nil
 	case reflect.Uint16: // Uint16
 		tmp := v.number().int64
 		if tmp < 0 || tmp > int64MaxUint16 {
-			return reflect.Value{}, fmt.Errorf("RangeError: %d (%v) to uint16", tmp, v)
+			return reflect.Value{}, fmt.Errorf("RangeError: %d (%v) to uint16", tmp, describeValue(v))
 		}
 		return reflect.ValueOf(uint16(tmp)).Convert(typ), nil
 	case reflect.Uint32: // Uint32
 		tmp := v.number().int64
 		if tmp < 0 || tmp > int64MaxUint32 {
-			return reflect.Value{}, fmt.Errorf("RangeError: %d (%v) to uint32", tmp, v)
+			return reflect.Value{}, fmt.Errorf("RangeError: %d (%v) to uint32", tmp, describeValue(v))
 		}
 		return reflect.ValueOf(uint32(tmp)).Convert(typ), nil
 	case reflect.Uint64: // Uint64
@@ -876,7 +876,7 @@ func (v Value) toReflectValue(typ reflect.Type) (reflect.Value, error) {
 		// if a value is outside the range of uint64
 		tmp := toIntegerFloat(v)
 		if tmp < 0 || tmp >= floatMaxUint64 { // float64(MaxUint64) is 2^64
-			return reflect.Value{}, fmt.Errorf("RangeError: %f (%v) to uint64", tmp, v)
+			return reflect.Value{}, fmt.Errorf("RangeError: %f (%v) to uint64", tmp, describeValue(v))
 		}
 		return reflect.ValueOf(uint64(tmp)).Convert(typ), nil
 	case reflect.Float32: // Float32
@@ -886,7 +886,7 @@ func (v Value) toReflectValue(typ reflect.Type) (reflect.Value, error) {
 			tmp1 = -tmp1
 		}
 		if tmp1 > 0 && !math.IsInf(tmp1, 0) && (tmp1 < math.SmallestNonzeroFloat32 || tmp1 > math.MaxFloat32) { // an infinity is a float32
-			return reflect.Value{}, fmt.Errorf("RangeError: %f (%v) to float32", tmp, v)
+			return reflect.Value{}, fmt.Errorf("RangeError: %f (%v) to float32", tmp, describeValue(v))
 		}
 		return reflect.ValueOf(float32(tmp)).Convert(typ), nil
 	case reflect.Float64: // Float64
@@ -951,7 +951,7 @@ func (v Value) toReflectValue(typ reflect.Type) (reflect.Value, error) {
 	}
 
 	// FIXME Should this end up as a TypeError?
-	panic(fmt.Errorf("invalid conversion of %v (%v) to reflect.Type: %v", v.kind, v, typ))
+	panic(fmt.Errorf("invalid conversion of %v (%v) to reflect.Type: %v", v.kind, describeValue(v), typ))
 }
 
 // reflectConversionError turns an error returned by toReflectValue or
